@@ -22,6 +22,7 @@ package evalfilter
 //@   ensures prepare.ok.scopes: scopesOK(e.environment)
 //@   ensures prepare.ok.ctx: e.context != nil
 //@   ensures @C09 prepare.context: err == nil ==> e.machine != nil && e.machine.context === e.context
+//@   ensures @C20 prepare.machine: err == nil ==> machineOK(e)
 //@   panics maybe
 
 //@ func New(script string) (result *Eval)
@@ -174,4 +175,20 @@ package evalfilter
 //@   ensures @C20 getvariable.local: scopeOf(e.environment, name, len(e.environment.local)) >= 0 ==> result === e.environment.local[scopeOf(e.environment, name, len(e.environment.local))][name]
 //@   ensures @C20 getvariable.global: scopeOf(e.environment, name, len(e.environment.local)) < 0 && has(e.environment.global, name) ==> result === e.environment.global[name]
 //@   ensures @C20 getvariable.unset: scopeOf(e.environment, name, len(e.environment.local)) < 0 && !has(e.environment.global, name) ==> isNull(result) && fresh(result)
+//@   panics never
+
+// Execute turns every failure of a run - an error or a panic - into an error value (C08), and
+// Run reports the truth value of what Execute returned (C05, C20).
+//@ func (e *Eval) Execute(obj interface{}) (out object.Object, err error)
+//@   requires evalOK(e) && e.machine != nil && machineOK(e)
+//@   ensures @C08 @C20 execute.result: validObj(out) && (err != nil ==> isNull(out))
+//@   records result
+//@   ensures @C08 execute.ok: e.machine == old(e.machine) && e.environment == old(e.environment) && (err == nil ==> evalOK(e))
+//@   panics never
+
+//@ func (e *Eval) Run(obj interface{}) (result bool, err error)
+//@   requires evalOK(e) && e.machine != nil && machineOK(e)
+//@   ensures @C08 run.ok: e.machine == old(e.machine) && e.environment == old(e.environment)
+//@   ensures @C05 @C20 run.verdict: err == nil ==> result == truthy(lastresult(Execute))
+//@   ensures @C20 run.fails: err != nil ==> result == false
 //@   panics never
